@@ -501,6 +501,7 @@ def r9(ctx):
 
 
 def tolower_rule(ctx, rid):
+    ctx.mark('tolower', rid)
     ctx.rule(rid, 'names are compared without regard to case for every letter: FileReader::tolower, which builds the name keys of '
              'the message map and folds the references of conditions, either applies the C library ::tolower to the whole string '
              '(std::transform over begin..end) or, evaluated on a string holding all 256 byte values, maps each of A..Z to a..z '
